@@ -105,7 +105,11 @@ pub fn lsp_results(mods: &super::run_common::Mods, shift: Option<(usize, usize)>
           for r in &refs {
             let Some(s) = judge(r, "reference", out) else { continue };
             let exact = s == t.text;
-            let prefix = s.starts_with(t.text.as_str()) && !s[t.text.len()..].chars().next().is_some_and(|c| c.is_alphanumeric() || c == '_');
+            // the only construct a reference may cover beyond the name is a type reference with its type arguments
+            let prefix = {
+              let toks: Vec<_> = tokenize(&s).into_iter().filter(|x| !x.is_comment()).collect();
+              toks.len() >= 4 && toks[0].text == t.text && toks[1].text == "<" && toks[toks.len() - 1].text == ">"
+            };
             if !exact && !prefix {
               out.fail(
                 format!("lsp-location/reference-does-not-spell-name/{class}"),
@@ -300,7 +304,7 @@ impl Prop for C14 {
     "C14"
   }
   fn rule(&self) -> String {
-    "syntactically valid modules (G5) with adversarial layout (tabs, CRLF, blank lines, tight punctuation, multi-line block comments, strings containing // and /*, non-ASCII in strings and comments, very long lines) plus every tests/*.sam and std/*.sam; oracle for every location in the parsed tree: inside the document (line < #lines, byte column <= line length), start <= end, enclosed by the parent's location, elements of one syntactic list ordered and disjoint, and for every name the text slice at its location equals the name; the harness's own tokenizer supplies the ground-truth positions of identifier tokens (every identifier token must be the location of some name node and vice versa); also every syntax-error location when the input is a mutilated variant; part B (results of the language server, judged against the text the server currently holds): 1 case in 14 is an accepted multi-module G1 program, and a sixth of the valid G5 texts is loaded as well, into a ServerState - in half of them the server is started with 1-5 comment lines in front of one module and then updated to the real text, so that a result computed from a stale tree is displaced; at up to 120 identifier tokens (first / last character) find-references, go-to-definition and hover are queried and every returned location must name a module the server holds, lie inside that module's text on character boundaries with start <= end; a reference must spell the queried name (exactly, or as the head of the construct it starts, e.g. `Name<T>`), references of one query must nest or be disjoint, a definition range must contain the name as a token, a hover range must contain the queried position; folding ranges must lie inside the document, start at a declaration keyword and nest or be disjoint; non-trivial = >=3 lines and a multi-line comment, CRLF, tab or non-ASCII byte precedes some identifier; distinct = hash of the text".into()
+    "syntactically valid modules (G5) with adversarial layout (tabs, CRLF, blank lines, tight punctuation, multi-line block comments, strings containing // and /*, non-ASCII in strings and comments, very long lines) plus every tests/*.sam and std/*.sam; oracle for every location in the parsed tree: inside the document (line < #lines, byte column <= line length), start <= end, enclosed by the parent's location, elements of one syntactic list ordered and disjoint, and for every name the text slice at its location equals the name; the harness's own tokenizer supplies the ground-truth positions of identifier tokens (every identifier token must be the location of some name node and vice versa); also every syntax-error location when the input is a mutilated variant; part B (results of the language server, judged against the text the server currently holds): 1 case in 14 is an accepted multi-module G1 program, and a sixth of the valid G5 texts is loaded as well, into a ServerState - in half of them the server is started with 1-5 comment lines in front of one module and then updated to the real text, so that a result computed from a stale tree is displaced; at up to 120 identifier tokens (first / last character) find-references, go-to-definition and hover are queried and every returned location must name a module the server holds, lie inside that module's text on character boundaries with start <= end; a reference must spell the queried name (exactly, or - for a type reference - the name followed by its type arguments `Name<T>`), references of one query must nest or be disjoint, a definition range must contain the name as a token, a hover range must contain the queried position; folding ranges must lie inside the document, start at a declaration keyword and nest or be disjoint; non-trivial = >=3 lines and a multi-line comment, CRLF, tab or non-ASCII byte precedes some identifier; distinct = hash of the text".into()
   }
   fn assumptions(&self) -> Vec<String> {
     vec![
